@@ -697,7 +697,7 @@ def gen_pre_case(rng):
             k = rng.randint(1, 3)
             names = [rng.choice(["os.path", "a.b", "a.b.c", "x.y", "os", "sys", "a", "q.r", " a.b ", "a.b as c", ""]) for _ in range(k)]
             l = rng.choice(["", "", "    ", "\t"]) + "import " + rng.choice([",", ", ", " , "]).join(names) + \
-                rng.choice(["", "", "  # c", " ; x = 1"])
+                rng.choice(["", "", "  # c", " ; x = 1", "  # see a.b, q.r", "#x", " # 'q' \"s\""])
         elif r < 0.55:
             l = rng.choice(["", "    "]) + rng.choice([
                 "s = \"see %s docs\"", "t = %s.join(c)", "u = '%s' + %s.sep", "# about %s", "v = f\"{%s.k} %s\"",
@@ -741,6 +741,18 @@ def pre_oracle(lines, out_text):
         lead = len(l) - len(l.lstrip())
         if l.lstrip().startswith("import ") and not any(rr == r and a <= lead < b for rr, a, b in lit):
             imp.add(r)
+    # … but its trailing comment must come out as it went in, at the end of the line
+    for t in toks:
+        if t.type == tokenize.COMMENT and t.start[0] in imp and t.start[0] == t.end[0]:
+            r = t.start[0]
+            if not out_lines[r - 1].endswith(lines[r - 1][t.start[1]:]):
+                why.append("comment of import line %d not kept: %r -> %r" % (r, lines[r - 1], out_lines[r - 1]))
+            head = lines[r - 1][:t.start[1]].rstrip()
+            names = [n.strip() for n in head.lstrip()[6:].split(",")]
+            for n in names:
+                want = ("from %s import %s" % (n, n.replace(".", "_"))) if "." in n else ("import %s" % n)
+                if want not in out_lines[r - 1]:
+                    why.append("import line %d: %r missing from %r" % (r, want, out_lines[r - 1]))
     for r, a, b in lit:
         if r not in imp and out_lines[r - 1][a:b] != lines[r - 1][a:b]:
             why.append("literal text changed on line %d: %r -> %r" % (r, lines[r - 1][a:b], out_lines[r - 1][a:b]))
@@ -754,7 +766,9 @@ def pre_oracle(lines, out_text):
 def layer_pre(ctx, n, corr_breaks, failing, stats):
     cases = [["import os.path", "s = \"see os.path docs\""], ["import os, sys", "x = 1"],
              ["import a.b, c", "    y = a.b.f()  # a.b", "'''", "import q.r", "'''", "z = q.r"],
-             ["def g(conf):", "    return conf.db", "import conf.db", "    return conf.db"]]
+             ["def g(conf):", "    return conf.db", "import conf.db", "    return conf.db"],
+             ["import os.path  # def f(): pass", "x = os.path.join(a)"], ["import os  # a, b.c", "y = 1"],
+             ["    import x.y, z#c", "    v = x.y"]]
     for _ in range(n):
         cases.append(gen_pre_case(ctx.rng))
     live = real_spans("") is not None
